@@ -70,7 +70,7 @@ impl BinaryDeserializer for %(X)s {
     open spec fn gv(&self) -> %(G)s { %(gv)s }
     open spec fn dec(s: Seq<u8>, t: Tbl) -> Dec<%(G)s> { dec_%(X)s(s, t) }
 
-//#fn id=catalogue::%(X)s::deserialize tags=C02,C03,C14,C05,C06,C07,C04 mode=body
+//#fn id=catalogue::%(X)s::deserialize tags=C02,C03,C14,C05,C06,C07,C04 mode=body%(lost)s
 #[verifier::rlimit(200)]
 fn deserialize(context: &mut DeserializationContext<'_>) -> (r: Result<Self>)%(trans_ens)s
 %(body)s
@@ -151,8 +151,8 @@ def annotate_reader(db, what, k):
     state is the initial one of dec_<N>"""
     m0 = re.search(r'(let mut deserializer =\s*AdtDeserializer::new_v0\([^;]*;\n)', db)
     m1 = re.search(r'(let mut deserializer =\s*AdtDeserializer::new\([^;]*;\n)', db)
-    if not m0 or not m1:
-        raise rx.Lost('deserialize of %s: statements creating the deserializer not found' % what)
+    # a reader that does not create the deserializer the documented way gets no hints: it is then
+    # judged by its contract alone (never skipped)
     h0 = '''        proof {
             let s = old(context).remaining();
             assert(deserializer.rwf());
@@ -171,9 +171,10 @@ def annotate_reader(db, what, k):
         }
 ''' % dict(k=k)
     # insert the later one first so that positions stay valid
-    for m, hint in sorted([(m0, h0), (m1, h1)], key=lambda x: -x[0].end()):
+    for m, hint in sorted([(m, h) for m, h in ((m0, h0), (m1, h1)) if m], key=lambda x: -x[0].end()):
         db = db[:m.end()] + hint + db[m.end():]
-    return db
+    lost = [n for n, m in (('new_v0-statement', m0), ('new-statement', m1)) if not m]
+    return db, lost
 
 
 def gen_reader_full(X, d, steps, core, H, expanded):
@@ -185,10 +186,10 @@ def gen_reader_full(X, d, steps, core, H, expanded):
     lf = core.lf
     gv = '(' + ', '.join('self.%s.gv()' % f['name'] for f in lf) + (',' if len(lf) == 1 else '') + ')'
     db = H['norm_paths'](H['impl_fn'](expanded, 'BinaryDeserializer', X))
-    db = annotate_reader(db, X, core.k)
+    db, lost = annotate_reader(db, X, core.k)
     db = db.replace('{', '{\n        broadcast use {lemma_rf_step, lemma_rof_step};\n        proof { reveal_strlits(); reveal(dec_%s); }' % X, 1)
     trans = ''.join('\n        r is Ok ==> r->Ok_0.%s == (%s),' % (f['name'], f['transient']) for f in d['fields'] if f['transient'] is not None)
-    return DE_FULL_TMPL % dict(X=X, G=G, specs=specs, gv=gv, body=db, trans_ens=('\n    ensures' + trans) if trans else '')
+    return DE_FULL_TMPL % dict(X=X, G=G, specs=specs, gv=gv, body=db, trans_ens=('\n    ensures' + trans) if trans else '', lost=(' lost=' + ';'.join(lost)) if lost else '')
 
 
 class Core:
